@@ -25,7 +25,7 @@ var c02Validated = []G{
 func C02(p *ir.Program, r *report.R) {
 	c := C{p, r}
 	r.Floor = 25
-	r.Explain = "Decided: every prevote for the proposal block (defaultDoPrevote) and every lock of the proposal block (enterPrecommit) is dominated by successful evidence check, application check AND full validation (BlockExecutor.ValidateBlock -> validateBlock) of cs.ProposalBlock against the current status; a precommit for a block is only for the locked block or the block locked on this path; validateBlock's nil-error return is dominated by every comparison the property lists (ValidateBasic, chain id, height, last block id, total txs, consensus hash, validators hash unless recover, last-commit size and VerifyCommit unless height 1) and every evidence item is verified before the loop continues; ApplyBlock validates before it updates or saves status. ADDED after seeded-change testing: Recover gate: the completed proposal block is used (valid-block update, enterPrevote/enterPrecommit/tryFinalizeCommit) only when its header's recover counter equals the node's own, the condition under which validateBlock may skip the validators-hash comparison. NOT decided: that CheckBlock's execution result is right (C05), signature arithmetic (C03)."
+	r.Explain = "Decided: every prevote for the proposal block (defaultDoPrevote) and every lock of the proposal block (enterPrecommit) is dominated by successful evidence check, application check AND full validation (BlockExecutor.ValidateBlock -> validateBlock) of cs.ProposalBlock against the current status; a precommit for a block is only for the locked block or the block locked on this path; validateBlock's nil-error return is dominated by every comparison the property lists (ValidateBasic, chain id, height, last block id, total txs, consensus hash, validators hash unless recover, last-commit size and VerifyCommit unless height 1) and every evidence item is verified before the loop continues; ApplyBlock validates before it updates or saves status. ADDED after seeded-change testing: Recover gate: the completed proposal block is used (valid-block update, enterPrevote/enterPrecommit/tryFinalizeCommit) only when its header's recover counter equals the node's own, the condition under which validateBlock may skip the validators-hash comparison. Rounds 4-5: the proposal block and its part set are replaced together at every site; the status built by updateStatus does not inherit LastRecover. NOT decided: that CheckBlock's execution result is right (C05), signature arithmetic (C03)."
 	r.Trusted = []string{"VerifyCommit (C03)", "LinkApplication.CheckBlock (C05)"}
 
 	// ---- votes are preceded by validation ------------------------------------
